@@ -323,6 +323,13 @@ def _safe_binop(op, a, b):
     return r
 
 
+class SigInfo(list):
+    """positional parameter names of a callee, with .defaults (constant default terms or None) aligned to them"""
+    def __init__(self, names, defaults):
+        super().__init__(names)
+        self.defaults = list(defaults)
+
+
 class Opts:
     """Normalisation options for one comparison."""
     def __init__(self, plus_commutes=False, ordered=False):
@@ -643,6 +650,17 @@ def mk_bin(op, a, b, opts=None):
             for y in rest:
                 acc = mk_bin('*', acc, y, opts)
             return acc
+    if op == '>>' and a[0] == '&' and len(a[1]) == 2 and not is_c(b) and not (opts is not None and opts.ordered):
+        # (x & ((1<<hi)-1)) >> lo   ==   (x >> lo) & ((1<<(hi-lo))-1)      (0 <= lo <= hi)
+        o_ = Opts(plus_commutes=True)
+        for m_, x_ in (a[1], a[1][::-1]):
+            if m_[0] == '+' and len(m_[1]) == 2 and C(-1) in m_[1]:
+                sh_ = [y for y in m_[1] if y != C(-1)][0]
+                if sh_[0] == '<<' and sh_[1][0] == C(1) and kind_of(x_) == 'num':
+                    hi_ = sh_[1][1]
+                    width = mk_bin('+', hi_, mk_neg(b, o_), o_)
+                    newmask = mk_bin('+', mk_bin('<<', C(1), width, o_), C(-1), o_)
+                    return mk_bin('&', mk_bin('>>', x_, b, opts), newmask, opts)
     if op == '**' and a == C(2) and not is_c(b):
         return mk_bin('<<', C(1), b, opts)
     if is_int(b) and type(b[1]) is int and is_pyint(a) and not (opts is not None and opts.ordered):
@@ -1677,6 +1695,19 @@ class PE:
                 if len(args2) != len(args):
                     args = tuple(args2)
                     kw = tuple(k for k in kw if k[1] in kwd)
+        if f[0] == 'g' and getattr(self, 'sig_of', None) is not None and not any(a[0] == 'star' for a in args) \
+                and not any(k[1] == '**' for k in kw):
+            # pack(h, '<L') is pack(h) when '<L' is the default: arguments equal to the callee's constant default are dropped
+            names = self.sig_of(f[1])
+            dfl = getattr(names, 'defaults', None)
+            if names and dfl:
+                kw2 = tuple(k for k in kw if not (k[1] in names and dfl[names.index(k[1])] is not None and dfl[names.index(k[1])] == k[2]))
+                args2 = list(args)
+                if not kw2:
+                    while args2 and len(args2) <= len(names) and dfl[len(args2) - 1] is not None and dfl[len(args2) - 1] == args2[-1]:
+                        args2.pop()
+                if len(args2) != len(args) or len(kw2) != len(kw):
+                    args, kw = tuple(args2), kw2
         if f[0] == 'attr' and f[2] == 'get' and len(args) == 2 and args[1] == NONE and not kw:
             args = args[:1]                                   # d.get(k, None) is d.get(k)
         if f[0] == 'b' and f[1] == 'getattr' and len(args) == 2 and not kw and is_c(args[1]) and isinstance(args[1][1], str):
@@ -1685,6 +1716,42 @@ class PE:
             return ('dict', tuple(sorted(((C(k[1]), k[2]) for k in kw), key=lambda kv: skey(kv[0]))))
         if f[0] == 'b' and f[1] == 'bytes' and len(args) == 1 and not kw and is_bytes(args[0]):
             return args[0]                                    # bytes(b) of a bytes value is b
+        if f[0] == 'attr' and f[1] in (('g', 'operator'), ('b', 'operator')) and len(args) == 2 and not kw \
+                and f[2] in ('xor', 'and_', 'or_', 'add', 'sub', 'mul', 'lshift', 'rshift', 'floordiv', 'mod'):
+            op_ = {'xor': '^', 'and_': '&', 'or_': '|', 'add': '+', 'sub': '-', 'mul': '*', 'lshift': '<<', 'rshift': '>>',
+                   'floordiv': '//', 'mod': '%'}[f[2]]
+            return mk_bin(op_, args[0], args[1], self.opts)          # operator.xor(a, b) is a ^ b
+        if f[0] == 'attr' and f[2] == 'join' and is_c(f[1]) and f[1][1] in (b'', '') and len(args) == 1 and not kw \
+                and args[0][0] in ('list', 'tuple') and 1 <= len(args[0][1]) <= 16:
+            if all(is_c(x_) for x_ in args[0][1]):
+                try:
+                    return C(f[1][1].join(x_[1] for x_ in args[0][1]))
+                except Exception:
+                    pass
+            acc = args[0][1][0]
+            for x_ in args[0][1][1:]:
+                acc = ('+', (acc[1] + (x_,)) if acc[0] == '+' and kind_of(acc) != 'num' else (acc, x_))
+            return acc if len(args[0][1]) > 1 else args[0][1][0]      # b''.join([a, b, c]) is a + b + c
+        if f[0] == 'b' and f[1] == 'len' and len(args) == 1 and not kw and args[0][0] == 'or' and len(args[0][1]) == 2:
+            a_, b_ = args[0][1]
+            return mk_ite(a_, self.call(f, (a_,), (), env), self.call(f, (b_,), (), env))      # len(a or b)
+        if f[0] == 'b' and f[1] == 'map' and len(args) == 2 and not kw and args[0][0] in ('lam', 'attr', 'g', 'b'):
+            ci = canon_iter(args[1], self.opts)
+            if ci is not None or args[1][0] == 'range':
+                self.lam_depth += 1
+                d_ = self.lam_depth
+                try:
+                    if ci is None:
+                        it_, x_ = args[1], ('bv', d_, 0, 'num')
+                        if not (it_[1] == C(0) and it_[3] == C(1)):
+                            cs = canon_seq(it_, self.opts)
+                            it_, x_ = ('range', C(0), cs[0], C(1)), cs[1](('bv', d_, 0, 'num'))
+                    else:
+                        it_, x_ = ('range', C(0), ci[0], C(1)), ci[1](('bv', d_, 0, 'num'))
+                    elt = self.call(shift_binders(args[0], d_, 1), (x_,), (), env)
+                finally:
+                    self.lam_depth -= 1
+                return mk_comp('list', d_, elt, ((it_, ()),))          # map(f, S) is (f(x) for x in S)
         if f[0] == 'b' and f[1] in ('max', 'min') and len(args) == 2 and not kw \
                 and kind_of(args[0]) != 'seq' and kind_of(args[1]) != 'seq' and not (is_c(args[0]) and is_c(args[1])) \
                 and args[0][0] not in ('comp', 'star') and args[1][0] not in ('comp', 'star'):
@@ -1702,6 +1769,15 @@ class PE:
             return ('tuple', (mk_bin('//', args[0], args[1], self.opts), mk_bin('%', args[0], args[1], self.opts)))
         if f[0] == 'b' and f[1] == 'divmod' and len(args) == 2 and not kw and is_pyint(args[0]) and is_pyint(args[1]):
             return ('tuple', (mk_bin('//', args[0], args[1], self.opts), mk_bin('%', args[0], args[1], self.opts)))
+        if f[0] == 'g' and not kw and args and all(is_c(a_) and isinstance(a_[1], (int, float)) for a_ in args) \
+                and getattr(self, 'ext_of', None) is not None:
+            ext = self.ext_of(f[1])
+            if ext is not None and ext[0] == 'math' and ext[1] in ('sin', 'cos', 'sqrt', 'floor', 'ceil', 'log', 'fabs', 'pow', 'exp'):
+                import math as _math
+                try:
+                    return from_py(getattr(_math, ext[1])(*[a_[1] for a_ in args]))     # a pure library function of constants
+                except Exception:
+                    pass
         if f[0] in ('g', 'b') and f[1] == 'reduce' and len(args) in (2, 3) and not kw and args[0][0] == 'lam' and args[0][1] == 2:
             r = self.reduce_as_loop(args[0], args[1], args[2] if len(args) == 3 else None)
             if r is not None:
@@ -2192,12 +2268,25 @@ class PE:
             merged = []
             self.emit_if(c, [A[-1]], [B[-1]], merged)
             if len(merged) == 1 and merged[0][0] == 'exit':
-                tmp = []
-                self.emit_if(c, list(A[:-1]), list(B[:-1]), tmp)
-                return tmp + merged
+                return self._mk_if(c, A[:-1], B[:-1]) + merged
         tmp = []
         self.emit_if(c, list(A), list(B), tmp)
         return tmp
+
+    def _strip_tail_continue(self, effs):
+        """a `continue` at the very end of a loop body (also at the end of a trailing if-branch) does nothing"""
+        effs = list(effs)
+        if not effs:
+            return effs
+        last = effs[-1]
+        if last[0] == 'continue':
+            return self._strip_tail_continue(effs[:-1])
+        if last[0] == 'if':
+            a_ = self._strip_tail_continue(last[2])
+            b_ = self._strip_tail_continue(last[3])
+            if tuple(a_) != tuple(last[2]) or tuple(b_) != tuple(last[3]):
+                return self.tidy(effs[:-1] + self._mk_if(last[1], a_, b_))
+        return effs
 
     def tidy(self, effs):
         """effects after an `if` one of whose branches leaves belong to the other branch; then normalise each `if`"""
@@ -2232,7 +2321,7 @@ class PE:
                 if ta and tb:
                     return out
             elif e[0] in ('for', 'while'):
-                out.append(e[:5] + (tuple(self.tidy(e[5])), tuple(self.tidy(e[6]))))
+                out.append(e[:5] + (tuple(self._strip_tail_continue(self.tidy(e[5]))), tuple(self.tidy(e[6]))))
             else:
                 out.append(e)
                 if e[0] in ('exit', 'break', 'continue'):
@@ -2291,6 +2380,14 @@ class PE:
                 seen.append(x)
         return seen
 
+    def has_jump(self, stmts):
+        """break / continue / return inside the statements (a yield is an effect like any other)"""
+        for st in stmts:
+            for n in ast.walk(st):
+                if isinstance(n, (ast.Break, ast.Continue, ast.Return)):
+                    return True
+        return False
+
     def has_flow_escape(self, stmts):
         for st in stmts:
             for n in ast.walk(st):
@@ -2301,14 +2398,14 @@ class PE:
     def exec_for(self, s, env, effects):
         it = self.ev(s.iter, env)
         items = iter_items(it) if self.unroll else None
-        if items is None and it[0] in ('tuple', 'list') and len(it[1]) <= 8 and not self.has_flow_escape(s.body) and not s.orelse:
+        if items is None and it[0] in ('tuple', 'list') and len(it[1]) <= 8 and not self.has_jump(s.body) and not s.orelse:
             # a literal sequence of at most 8 elements: canonical form is the unrolled loop
             # (makes `for w in W` + running counter and `for k, w in enumerate(W)` + closed form the same term)
             items = list(it[1])
             limit = 8
         else:
             limit = self.unroll
-        if items is not None and len(items) <= limit and not self.has_flow_escape(s.body) and not s.orelse:
+        if items is not None and len(items) <= limit and not self.has_jump(s.body) and not s.orelse:
             memo = {}
             for x in items:
                 self.bind_target(s.target, x, env)
@@ -2714,6 +2811,31 @@ class PE:
                 body_eff = list(substitute(tuple(body_eff), fwd, self.opts))
                 if cond is not None:
                     cond = substitute(cond, fwd, self.opts)
+        if kind == 'for' and not carried and not s.orelse and not pending_folded and len(body_eff) == 1 and body_eff[0][0] == 'yield' \
+                and not self.has_jump(s.body) and (it[0] != 'range' or (it[1] == C(0) and it[3] == C(1))):
+            y_ = body_eff[0]
+            d_ = self.lam_depth + 1
+
+            def to_bv_(t):
+                t = shift_binders(t, d_, 1)
+                if it[0] == 'range':
+                    return substitute(t, {itsym(): ('bv', d_, 0, 'num')}, self.opts)
+
+                def rec(x):
+                    if type(x) is not tuple or not x:
+                        return x
+                    if x[0] == 'it' and len(x) > 1 and x[1] == L:
+                        return ('bv', d_, 0) + tuple(x[2:])
+                    return tuple(rec(y) if type(y) is tuple else y for y in x)
+                return substitute(rec(t), {}, self.opts)
+            if not mentions(y_[1], lambda x: x[0] in ('phi', 'after', 'cnt') and len(x) > 1 and x[1] == L) and y_[1] != ('sent',):
+                effects.append(('yieldfrom', mk_comp('list', d_, to_bv_(y_[1]), ((it, ()),))))
+                for v in assigned:
+                    if v in env2 and v not in tn:
+                        env[v] = ('afterlocal', L, env2[v])
+                if self.nloops == L:
+                    self.nloops -= 1
+                return
         if kind == 'for' and not carried and not body_eff and not s.orelse and pending_folded and not self.has_flow_escape(s.body):
             # nothing is left of the loop: no effect is emitted
             for v in assigned:
